@@ -181,13 +181,7 @@ func (m *Manager) SetSubscriberQoS(qos *SubscriberQoS) error {
 	burstBytes := qos.BurstBytes
 	if burstBytes == 0 {
 		// Default burst: 1 second of traffic, minimum 64KB
-		burstBytes = uint32(qos.DownloadBPS / 8)
-		if burstBytes < 65536 {
-			burstBytes = 65536
-		}
-		if burstBytes > 10*1024*1024 {
-			burstBytes = 10 * 1024 * 1024 // Cap at 10MB
-		}
+		burstBytes = defaultBurst(qos.DownloadBPS)
 	}
 
 	// Create egress (download) token bucket
@@ -200,13 +194,7 @@ func (m *Manager) SetSubscriberQoS(qos *SubscriberQoS) error {
 	}
 
 	// Create ingress (upload) token bucket
-	uploadBurst := uint32(qos.UploadBPS / 8)
-	if uploadBurst < 65536 {
-		uploadBurst = 65536
-	}
-	if uploadBurst > 10*1024*1024 {
-		uploadBurst = 10 * 1024 * 1024
-	}
+	uploadBurst := defaultBurst(qos.UploadBPS)
 
 	ingressTB := &TokenBucket{
 		Tokens:     uint64(uploadBurst),
@@ -317,6 +305,20 @@ func (m *Manager) GetSubscriberCount() int {
 	m.subscribersMu.RLock()
 	defer m.subscribersMu.RUnlock()
 	return len(m.subscribers)
+}
+
+// defaultBurst is 1 second of traffic, minimum 64KB, capped at 10MB.
+// The clamp is applied before narrowing to 32 bits (rates of 2^35 bit/s and
+// more used to wrap and could end up with the 64KB minimum).
+func defaultBurst(bps uint64) uint32 {
+	b := bps / 8
+	if b < 65536 {
+		b = 65536
+	}
+	if b > 10*1024*1024 {
+		b = 10 * 1024 * 1024
+	}
+	return uint32(b)
 }
 
 // ipToKey converts an IPv4 address to a uint32 key (network byte order)
